@@ -65,6 +65,8 @@ TRUSTED = [
     "section hypotheses H_*_cat_* of Props/C08.v (cells of the ragged cat = concatenation of cells) are discharged for "
     "the model of Model/RaggedCat.v by the C06 theorems (row/col_partition_roundtrip_model); their instances are also "
     "evaluated on every partition case of this run (c08_hyp_*)",
+    "store model coq/Model/FrameStore.v of _cat_col's defaultdict(list)/extend (inputs unchanged, fresh result lists): "
+    "its executable form c08_store_check is compared with the parts' name lists read after every column cat",
     "harness/c08.py + harness/frames.py (generator, nested-list reference evaluator, Coq printer)",
 ]
 ASSUMPTIONS = [
@@ -784,7 +786,7 @@ def decorate(rng, e):
 
 
 def generate(rng, tier):
-    n = 900 if tier == "quick" else 25000
+    n = 800 if tier == "quick" else 25000
     cases = [rng.wpick(GENS)(rng) for _ in range(n)]
     for c in cases:
         if c["kind"] in ("rowpart", "colpart", "perturb", "lookup", "indep"):
@@ -883,9 +885,9 @@ def _try(fn):
         return {"ok": False, "exc": C.exc_name(ex), "msg": str(ex)[:160]}
 
 
-def run_sub(case, env, log):
+def run_sub(case, env, log, trace=None):
     obs = {}
-    ta = _try(lambda: F.ev(case["a"], env, log))
+    ta = _try(lambda: F.ev(case["a"], env, log, trace))
     obs["a"] = {"ok": ta["ok"], "exc": ta.get("exc"), "msg": ta.get("msg")}
     if ta["ok"]:
         r = _try(lambda: F.read_frame(ta["v"]))
@@ -929,10 +931,11 @@ def run_sub(case, env, log):
 
 
 def run(case):
-    log = []
+    log, trace = [], []
     if case["kind"] != "reuse":
-        obs = run_sub(case, None, log)
+        obs = run_sub(case, None, log, trace)
         obs["mutated"] = log
+        obs["cat_trace"] = trace[:4]
         return obs
     # multi-step: the objects of `env` are built once and REUSED by every check
     env, obs = [], {"subs": [], "mutated": log, "env": []}
@@ -944,7 +947,8 @@ def run(case):
             return obs
     snaps = [F.full_snapshot(x) for x in env]
     for chk in case["checks"]:
-        obs["subs"].append(run_sub(dict(chk, lookups=chk.get("lookups", [])), env, log))
+        obs["subs"].append(run_sub(dict(chk, lookups=chk.get("lookups", [])), env, log, trace))
+    obs["cat_trace"] = trace[:4]
     # the bound objects themselves must be what they were before the checks used them
     obs["env_same"] = [F.full_snapshot(x) == s0 for x, s0 in zip(env, snaps)]
     if obs["subs"]:                                   # summary fields used by stats / nontrivial_sig
@@ -1321,14 +1325,33 @@ def hyp_terms(case):
     return out
 
 
+def store_terms(obs):
+    """executable form of Props/C08.v cat_col_names_inputs_unchanged on every column cat this case performed"""
+    out = []
+    for t in obs.get("cat_trace", []):
+        if t["dim"] != 1 or not t["before"]:
+            continue
+        res = "None" if t["result"] is None else f"(Some {F.coq_names(t['result'])})"
+        out.append(f"c08_store_check {C.clist(t['before'], F.coq_names)} {C.clist(t['after'], F.coq_names)} {res}")
+    return out
+
+
 def coq_term(case, obs):
+    t = coq_term_main(case, obs)
+    if t is None:
+        return None
+    st = store_terms(obs)
+    return "(" + " && ".join([t] + st) + ")" if st else t
+
+
+def coq_term_main(case, obs):
     if not isinstance(obs, dict) or "a" not in obs:
         return None
     if case["kind"] == "reuse":
         # the model is pure: reuse of an object is re-evaluation of the expression it is bound to
         if len(obs["subs"]) != len(case["checks"]):
             return None
-        terms = [coq_term(pc, so) for pc, so in zip(pure_checks(case), obs["subs"])]
+        terms = [coq_term_main(pc, so) for pc, so in zip(pure_checks(case), obs["subs"])]
         if any(t is None for t in terms):
             return None
         return "(" + " && ".join(terms) + ")"
